@@ -26,6 +26,10 @@ fn last_error() -> Option<Vec<u8>> {
     }
 }
 
+fn r_bool_static(i: u64) -> bool {
+    i % 2 == 0
+}
+
 fn c_text(s: &str) -> Vec<u8> {
     // what a NUL-terminated message carrying `s` must look like
     s.bytes().map(|b| if b == 0 { 0x1a } else { b }).collect()
@@ -275,7 +279,7 @@ pub fn run(run: &Run) {
     ffi::panic::wirefilter_set_panic_catcher_hook();
 
     // ---- A. differential: valid and broken filters through both APIs
-    let n = run.opts.size(3_000, 250_000);
+    let n = run.opts.size(30_000, 1_000_000);
     run.parallel("differential", n, |i, l| {
         ffi::panic::wirefilter_enable_panic_catcher();
         let mut r = Rng::derive(seed, "c20-d", i);
@@ -384,7 +388,7 @@ pub fn run(run: &Run) {
     });
 
     // ---- C. typed setters and JSON entry points: every failure has a message
-    let n = run.opts.size(1_500, 100_000);
+    let n = run.opts.size(15_000, 500_000);
     run.parallel("setters", n, |i, l| {
         let mut r = Rng::derive(seed, "c20-s", i);
         let w = &worlds[r.below(worlds.len())];
@@ -489,7 +493,7 @@ pub fn run(run: &Run) {
     });
 
     // ---- D. last-error belongs to the calling thread, is replaced and cleared
-    let n = run.opts.size(300, 10_000);
+    let n = run.opts.size(1_500, 30_000);
     run.parallel("last-error", n, |i, l| {
         let w = &worlds[0];
         let bad: Vec<String> = (0..4).map(|t| format!("num_m == {}thread{}", t, i)).collect();
@@ -557,8 +561,143 @@ pub fn run(run: &Run) {
         run.distinct(i ^ 0xeeee);
     });
 
+    // ---- D'. the message of a failing call does not depend on what failed before
+    // it: every kind of failure (of every entry point, including the
+    // not-UTF-8 ones) is first observed alone, right after a clear, and must
+    // then leave exactly the same message wherever it occurs in a sequence of
+    // failing and succeeding calls with no clearing in between
+    let n = run.opts.size(3_000, 60_000);
+    run.parallel("error-sequences", n, |i, l| {
+        let mut r = Rng::derive(seed, "c20-es", i);
+        let w = &worlds[r.below(worlds.len())];
+        let good = "tru_m";
+        let parsed = ffi::wirefilter_parse_filter(&w.scheme, good.as_ptr() as *const _, good.len());
+        let Some(ast) = parsed.ast else {
+            run.inconclusive("C20 error-sequences: `tru_m` does not parse");
+            return;
+        };
+        let mut ctx = ffi::wirefilter_create_execution_context(&w.scheme);
+        let mut builder = ffi::wirefilter_create_scheme_builder();
+        let fname = b"dup.field";
+        let _ = ffi::wirefilter_add_type_field_to_scheme(&mut builder, fname.as_ptr() as *const _, fname.len(), ffi::wirefilter_create_primitive_type(ffi::CPrimitiveType::Int));
+        let _ = ffi::wirefilter_add_never_list_to_scheme(&mut builder, ffi::wirefilter_create_primitive_type(ffi::CPrimitiveType::Int));
+        let bad_utf8: &[u8] = b"num_m == \xff\xfe 1";
+        let bad_name: &[u8] = b"nu\xc3m";
+        let texts = ["num_m == ", "nosuch == 1", "str_m matches \"(\"", "num_m in {1 2", "tru_m and and", "ipa_m == 1.2.3.4.5", "num_m == 1\0"];
+        const KINDS: usize = 16;
+        // returns true when the call failed (as every one of them must)
+        let fail = |k: usize, ctx: &mut ffi::ExecutionContext<'_>, builder: &mut ffi::SchemeBuilder| -> bool {
+            match k {
+                0..=6 => {
+                    let t = texts[k];
+                    let c = ffi::wirefilter_parse_filter(&w.scheme, t.as_ptr() as *const _, t.len());
+                    if let Some(a) = c.ast {
+                        ffi::wirefilter_free_parsed_filter(a);
+                        return false;
+                    }
+                    c.status == ffi::Status::Error
+                }
+                7 => {
+                    let c = ffi::wirefilter_parse_filter(&w.scheme, bad_utf8.as_ptr() as *const _, bad_utf8.len());
+                    c.ast.is_none() && c.status == ffi::Status::Error
+                }
+                8 => !ffi::wirefilter_add_int_value_to_execution_context(ctx, bad_name.as_ptr() as *const _, bad_name.len(), 1),
+                9 => {
+                    let n = b"nosuch.field";
+                    !ffi::wirefilter_add_bool_value_to_execution_context(ctx, n.as_ptr() as *const _, n.len(), true)
+                }
+                10 => {
+                    let n = b"str_m";
+                    !ffi::wirefilter_add_int_value_to_execution_context(ctx, n.as_ptr() as *const _, n.len(), 7)
+                }
+                11 => {
+                    let (n, js) = (b"num_m", b"{\"a\":");
+                    !ffi::wirefilter_add_json_value_to_execution_context(ctx, n.as_ptr() as *const _, n.len(), js.as_ptr(), js.len())
+                }
+                12 => {
+                    let js = b"{\"nosuch\":1}";
+                    !ffi::wirefilter_deserialize_json_to_execution_context(ctx, js.as_ptr(), js.len())
+                }
+                13 => ffi::wirefilter_filter_uses(&ast, bad_name.as_ptr() as *const _, bad_name.len()).status == ffi::Status::Error,
+                14 => {
+                    let n = b"nosuch.field";
+                    ffi::wirefilter_filter_uses_list(&ast, n.as_ptr() as *const _, n.len()).status == ffi::Status::Error
+                }
+                _ => {
+                    if r_bool_static(i) {
+                        !ffi::wirefilter_add_type_field_to_scheme(builder, fname.as_ptr() as *const _, fname.len(), ffi::wirefilter_create_primitive_type(ffi::CPrimitiveType::Bytes))
+                    } else {
+                        !ffi::wirefilter_add_type_field_to_scheme(builder, bad_name.as_ptr() as *const _, bad_name.len(), ffi::wirefilter_create_primitive_type(ffi::CPrimitiveType::Bytes))
+                    }
+                }
+            }
+        };
+        // each failure alone
+        let mut alone: Vec<Option<Vec<u8>>> = Vec::new();
+        for k in 0..KINDS {
+            ffi::wirefilter_clear_last_error();
+            let failed = fail(k, &mut ctx, &mut builder);
+            let msg = last_error();
+            l.evals += 1;
+            if !failed || msg.as_ref().map_or(true, |m| m.is_empty()) {
+                run.violation(
+                    &format!("C20/error-sequences/kind{}-{}", k, if failed { "failure-without-message" } else { "call-did-not-fail" }),
+                    "last-error",
+                    "error-sequences",
+                    i,
+                    json!({"kind": k, "failed": failed, "message": msg.as_ref().map(|m| String::from_utf8_lossy(m).into_owned())}),
+                );
+            }
+            alone.push(msg);
+        }
+        // sequences without clearing
+        for _ in 0..6 {
+            ffi::wirefilter_clear_last_error();
+            let len = r.range(2, 7);
+            let mut trace: Vec<String> = Vec::new();
+            let mut current: Option<Vec<u8>> = None;
+            for _ in 0..len {
+                l.evals += 1;
+                if r.chance(1, 4) {
+                    // a success leaves the message alone
+                    let c = ffi::wirefilter_parse_filter(&w.scheme, good.as_ptr() as *const _, good.len());
+                    if let Some(a) = c.ast {
+                        ffi::wirefilter_free_parsed_filter(a);
+                    }
+                    let n = b"num_m";
+                    let _ = ffi::wirefilter_add_int_value_to_execution_context(&mut ctx, n.as_ptr() as *const _, n.len(), 3);
+                    let _ = ffi::wirefilter_filter_uses(&ast, n.as_ptr() as *const _, n.len());
+                    trace.push("successes".into());
+                } else {
+                    let k = r.below(KINDS);
+                    let _ = fail(k, &mut ctx, &mut builder);
+                    current = alone[k].clone();
+                    trace.push(format!("fail{}", k));
+                }
+                let got = last_error();
+                if got != current {
+                    let last = trace.last().cloned().unwrap_or_default();
+                    run.violation(
+                        &format!("C20/error-sequences/message-depends-on-history/after-{}", last.trim_end_matches(char::is_numeric)),
+                        "last-error",
+                        "error-sequences",
+                        i,
+                        json!({"calls": trace, "expected": current.as_ref().map(|m| String::from_utf8_lossy(m).into_owned()),
+                               "got": got.as_ref().map(|m| String::from_utf8_lossy(m).into_owned())}),
+                    );
+                    break;
+                }
+            }
+        }
+        ffi::wirefilter_free_parsed_filter(ast);
+        ffi::wirefilter_free_execution_context(ctx);
+        ffi::wirefilter_free_scheme_builder(builder);
+        ffi::wirefilter_clear_last_error();
+        run.distinct(i ^ 0x5e95);
+    });
+
     // ---- E. panics inside parse / compile / match become a panic status
-    let n = run.opts.size(200, 5_000);
+    let n = run.opts.size(1_000, 20_000);
     run.parallel("panics", n, |i, l| {
         ffi::panic::wirefilter_enable_panic_catcher();
         let w = &worlds[(i % 2) as usize];
